@@ -405,4 +405,135 @@ theorem Full_handleTag_lexer (cfg : Cfg) (hb : IdsBounded (theProgram cfg) cfg.s
                 exact this
               exact handleTag_tail _ (q2.idle hi3) hJ4
 
+/-! ## `Disp.handleNonTag` and `Disp.finish` in lexer mode -/
+
+/-- **Full_handleNonTag_lexer.** The same for `handle_non_tag_content` (text, comment, doctype, EOF
+lexemes): the closing chunk of an open text node unless the lexeme is text, then at most one token. -/
+theorem Full_handleNonTag_lexer (cfg : Cfg) (d : Disp (FullSt cfg)) (hi : Idle d) (hJ : J cfg d.ctl.1)
+    (input : Bytes) (lx : NonTagLexeme) : Post cfg (Disp.handleNonTag (fullCtl cfg) input lx d) := by
+  unfold Disp.handleNonTag
+  -- after the optional flush we are in a `J` state again
+  have hflush : (∃ e, (if lx.isText then ((d, .ok ()) : DRes (FullSt cfg) Unit) else d.flushPendingText (fullCtl cfg)).2 = .error e ∧
+        e = .handler) ∨
+      ((if lx.isText then ((d, .ok ()) : DRes (FullSt cfg) Unit) else d.flushPendingText (fullCtl cfg)).2 = .ok () ∧
+        Idle (if lx.isText then ((d, .ok ()) : DRes (FullSt cfg) Unit) else d.flushPendingText (fullCtl cfg)).1 ∧
+        J cfg (if lx.isText then ((d, .ok ()) : DRes (FullSt cfg) Unit) else d.flushPendingText (fullCtl cfg)).1.ctl.1) := by
+    split
+    · exact Or.inr ⟨rfl, hi, hJ⟩
+    · obtain ⟨tokF, ⟨tt, p, htokF⟩, f1, _, f3, f4⟩ := flushPendingText_full d
+      have hkF : (CtlEv.other tokF).WellKinded := by rw [htokF]; trivial
+      obtain ⟨o1, o2⟩ := tokIf_other_no_panic cfg d.ctl.1 hJ tokF hkF d.textPending
+      cases h0 : (tokIf cfg d.textPending d.ctl.1 tokF).2 with
+      | some e => rw [h0] at f4; exact Or.inl ⟨e, f4, o2 e h0⟩
+      | none => rw [h0] at f4; exact Or.inr ⟨f4, f3.idle hi, by rw [f1]; exact o1 h0⟩
+  rcases hflush with ⟨e, he, hh⟩ | ⟨hok, hi1, hJ1⟩
+  · rw [DRes.bind_err _ _ e he]
+    exact post_err _ e (Or.inl hh)
+  · rw [DRes.bind_ok _ _ () hok]
+    generalize (if lx.isText then ((d, .ok ()) : DRes (FullSt cfg) Unit) else d.flushPendingText (fullCtl cfg)).1 = d1 at hi1 hJ1 ⊢
+    rcases produceNonTag_full d1 input lx with ⟨q1, q2, q3⟩ | ⟨e, he, hq⟩ | ⟨tok, hk, q1, q2, q3⟩
+    · exact ⟨fun _ _ => ⟨q3.idle hi1, by rw [q2]; exact hJ1⟩, fun e he => by rw [q1] at he; cases he⟩
+    · refine ⟨fun a ha => (by rw [hq] at ha; cases ha), fun e' he' => ?_⟩
+      rw [hq] at he'
+      simp only [Except.error.injEq] at he'
+      rw [← he']
+      exact Or.inr (Or.inr (Or.inr (Or.inr he)))
+    · obtain ⟨o1, o2⟩ := tokIf_other_no_panic cfg d1.ctl.1 hJ1 tok hk true
+      have hto : tokIf cfg true d1.ctl.1 tok = ((token cfg d1.ctl.1 tok).1, (token cfg d1.ctl.1 tok).2.err) := by
+        simp [tokIf]
+      cases hte : (token cfg d1.ctl.1 tok).2.err with
+      | some e =>
+        rw [hte] at q3
+        refine ⟨fun a ha => (by rw [q3] at ha; cases ha), fun e' he' => ?_⟩
+        rw [q3] at he'
+        simp only [Except.error.injEq] at he'
+        rw [← he']
+        exact Or.inl (o2 e (by rw [hto, hte]))
+      | none =>
+        rw [hte] at q3
+        refine ⟨fun _ _ => ⟨q2.idle hi1, ?_⟩, fun e he => by rw [q3] at he; cases he⟩
+        rw [q1]
+        have := o1 (by rw [hto, hte])
+        rw [hto] at this
+        exact this
+
+/-- **Full_handleEnd_lexer.** `handle_end` (called by `Dispatcher::finish`) from a `J` state fails only
+with a content-handler error. -/
+theorem Full_handleEnd_lexer (cfg : Cfg) (g : FullSt cfg) (hJ : J cfg g.1) (e : Err)
+    (he : ((fullCtl cfg).handleEnd g).2.2 = some e) : e = .handler :=
+  Full_handleEnd_clean cfg g hJ.fault e he
+
+/-! ## What is still missing for `Full_no_panic` -/
+
+/-- the dispatcher-level invariant of lexer mode -/
+def KD (cfg : Cfg) (d : Disp (FullSt cfg)) : Prop := Idle d ∧ J cfg d.ctl.1
+
+theorem KD_new (cfg : Cfg) (enc : Nat) : KD cfg (Disp.new (fullCtl cfg) (FullSt.init cfg) enc) :=
+  ⟨⟨rfl, rfl⟩, J_init cfg⟩
+
+/-- **Full statement of the lexer-mode headline** (NOT proved). For configurations that never leave lexer
+mode (a document-level text / comment / doctype handler is registered: `Full_initial_scan`, sticky flags),
+no call of the whole model returns a panic- or internal-class error.
+
+Proved towards it: `Full_handleTag_lexer`, `Full_handleNonTag_lexer`, `Full_handleEnd_lexer`, `KD_new`
+(every lexer-mode dispatcher operation keeps `KD` or fails with an `Allowed` error), and for the cleaned
+controller `cleanCtl (fullCtl cfg)` C15_no_panic_full_gen (no panic at all), with `cleanCtl_sim` /
+`writeAll_sim` relating the two runs up to the first panic-class callback error.
+
+Missing, exactly:
+1. a lifting of "`KD` is kept by `handleTag` / `handleNonTag` UNTIL THE FIRST ERROR" through
+   `Parser.parse` and `Stream.write` in lexer mode. `Lemmas/LexOnly.lean` (`OpsLex`) and
+   `Lemmas/Preserve.lean` (`OpsPreserve`) require the invariant after EVERY operation, also a failing one
+   (the controller is then in the middle of an event); `Lemmas/ParseRelE.lean` has the right
+   until-first-error shape but relates two runs with the invariant on the controller state only
+   (`DRel D`), not on the dispatcher state (`Idle`); a unary `OpsLexE` version is ~300 lines in the
+   style of LexOnly.lean.
+2. `Allowed` still contains sites that only the lexeme invariants of packages inv / attrs exclude:
+   `DispOwn` (C15's `SinkSafe` preconditions), `rAttr` (attribute raw range inside the tag's raw range:
+   C16's `EmitRegs` / `C16_emit_tag`), `rMatcher` (C15 token-part certificate `PTok`); and `rPayload`
+   (needs `Full_elemAct_faithful` composed over all invoked handlers + uniqueness of the ghost ordinals,
+   which hold along `J` runs but are not part of `J` yet).
+3. `IdsBounded` for every selector set (`Full_idsBounded_statement`).
+4. Scanner mode: the hint operations from a `KD` state and the re-lexed tag (C06_relex_same_tag /
+   C06_relex_end_tag give the KIND of the next tag lexeme at stream level — exactly what the protocol
+   needs; the pending-request state between `handle_start_tag` and its answer needs a `J`-variant). -/
+def Full_no_panic_lexer_statement : Prop :=
+  ∀ (cfg : Cfg) (settings : Settings) (chunks : List Bytes),
+    (∃ d ∈ cfg.docs, d.doctype.isSome = true ∨ d.comments.isSome = true ∨ d.text.isSome = true) →
+    ∀ x ∈ (C01.run (genWorld cfg) (C01.Rewriter.new (genWorld cfg) (FullSt.init cfg) settings) chunks).2,
+      Model.CallOK (fun _ => False) x
+
+/-! ## Transport: the cleaned controller -/
+
+/-- **Full_clean_no_panic.** With the cleaned real controller (panic- / internal-class callback errors
+turned into handler errors, `Lemmas/ChunkResumeAll.lean`) the whole model never returns a panic- or
+internal-class error: every configuration, settings record and chunking (`C15_no_panic_full_gen`). -/
+theorem Full_clean_no_panic (cfg : Cfg) (settings : Settings) (chunks : List Bytes) :
+    ∀ x ∈ (C01.run (Chunk.R.World.withCtl (genWorld cfg) (Chunk.R.cleanCtl (fullCtl cfg)))
+        (C01.Rewriter.new (Chunk.R.World.withCtl (genWorld cfg) (Chunk.R.cleanCtl (fullCtl cfg))) (FullSt.init cfg) settings) chunks).2,
+      Model.CallOK (fun _ => False) x :=
+  C15.C15_no_panic_full_gen (Chunk.R.World.withCtl (genWorld cfg) (Chunk.R.cleanCtl (fullCtl cfg))) rfl
+    (Chunk.R.cleanCtl_clean (fullCtl cfg)) (FullSt.init cfg) settings chunks
+
+/-- **Full_writes_agree_or_panic.** The writes of the whole model with the real controller are, call by
+call, the writes with the cleaned controller (which never panic: `Full_clean_no_panic`) — or the first
+difference is a call of the real-controller run that returns a panic- / internal-class error other than the
+guard's (`GP`; an internal-class error shows as the handler error `ActionError::Internal` becomes in release
+builds, `parseErr`). So `Full_no_panic` for `write*` is EQUIVALENT to: no `write` returns a `GP` error; parser,
+dispatcher and stream contribute no panic site of their own with the real controller. -/
+theorem Full_writes_agree_or_panic (cfg : Cfg) (settings : Settings) (chunks : List Bytes) :
+    ((C01.writeAll (genWorld cfg) (C01.Rewriter.new (genWorld cfg) (FullSt.init cfg) settings) chunks).2 =
+      (C01.writeAll (Chunk.R.World.withCtl (genWorld cfg) (Chunk.R.cleanCtl (fullCtl cfg)))
+        (C01.Rewriter.new (Chunk.R.World.withCtl (genWorld cfg) (Chunk.R.cleanCtl (fullCtl cfg))) (FullSt.init cfg) settings) chunks).2) ∨
+    ∃ e, Chunk.R.GP e ∧ CallRes.err (RelE.parseErr e) ∈
+      (C01.writeAll (genWorld cfg) (C01.Rewriter.new (genWorld cfg) (FullSt.init cfg) settings) chunks).2 := by
+  have hsim := Chunk.R.cleanCtl_sim (Chunk.R.fullCtl_panicLaws cfg)
+  have hnew := Chunk.R.new_eq (w := genWorld cfg) hsim (FullSt.init cfg) (Chunk.R.init_fullD cfg) settings
+  have := Chunk.R.writeAll_sim (w := genWorld cfg) hsim C03.C03_emitsChecked_gen chunks
+    (C01.Rewriter.new (genWorld cfg) (FullSt.init cfg) settings) (Or.inr (Chunk.R.init_fullD cfg))
+  rcases this with ⟨he, _⟩ | ⟨_, e, hG, hmem⟩
+  · left
+    rw [← hnew, he]
+  · exact Or.inr ⟨e, hG, hmem⟩
+
 end LolHtml.Thm.Full
